@@ -427,12 +427,50 @@ func evalC12(c *engine.Case) engine.Verdict {
 	}
 	typ := sc.Target.In[0].Type
 	ownTok := func(tag int) int { return 10000 + tag }
+	// op "nilptr": a shared converter whose result is a POINTER to a result
+	// struct and which returns nil (the library substitutes the zero struct),
+	// used for the first time by several goroutines at once; outside the token
+	// world, judged by the race detector and by "succeeds, no panic"
+	type nilOut struct {
+		argmapper.Struct
+		X engine.T1
+	}
+	nilConv := map[*engine.World]*argmapper.Func{}
+	nilTarget := map[*engine.World]*argmapper.Func{}
+	mkNil := func(w *engine.World) {
+		c, err1 := argmapper.NewFunc(func(engine.T0) *nilOut { return nil })
+		t, err2 := argmapper.NewFunc(func(in struct {
+			argmapper.Struct
+			X engine.T1
+		}) int {
+			return in.X.K
+		})
+		if err1 == nil && err2 == nil {
+			nilConv[w], nilTarget[w] = c, t
+		}
+	}
 	doOp := func(w *engine.World, f *argmapper.Func, args []argmapper.Arg, op string, tag int) string {
 		switch op {
 		case "call":
 			return outcomeClass(w.Call(f, args))
 		case "convert":
 			return outcomeClass(w.Convert(typ, args))
+		case "nilptr":
+			if nilTarget[w] == nil {
+				return "nilptr:none"
+			}
+			var o engine.Outcome
+			var res argmapper.Result
+			engine.Protect(&o, func() {
+				res = nilTarget[w].Call(argmapper.Named("x0", engine.T0{K: tag}), argmapper.ConverterFunc(nilConv[w]), engine.Quiet())
+			})
+			if o.Panic != "" {
+				return "panic"
+			}
+			if res.Err() != nil || res.Out(0).(int) != 0 {
+				return "nilptr:wrong"
+			}
+			return "nilptr:ok"
 		case "sharedrf":
 			rf := sharedRF[w]
 			if rf == nil {
@@ -491,6 +529,7 @@ func evalC12(c *engine.Case) engine.Verdict {
 	}
 	// sequential twin first
 	tw, tf, targs := build()
+	mkNil(tw)
 	want := make([][]string, len(x.Ops))
 	for gi, ops := range x.Ops {
 		for oi, op := range ops {
@@ -499,6 +538,7 @@ func evalC12(c *engine.Case) engine.Verdict {
 	}
 	// concurrent world
 	w, f, args := build()
+	mkNil(w)
 	got := make([][]string, len(x.Ops))
 	var wg sync.WaitGroup
 	start := make(chan struct{})
@@ -592,8 +632,16 @@ func evalC12(c *engine.Case) engine.Verdict {
 		}
 	}
 	rfFirst := ""
+	nilOps := 0
 	for gi := range got {
 		for oi := range got[gi] {
+			if got[gi][oi] == "nilptr:wrong" {
+				v.Failf("goroutine %d op %d: the call through the shared converter that returns a nil result pointer failed or delivered a non-zero value", gi, oi)
+				return v
+			}
+			if got[gi][oi] == "nilptr:ok" {
+				nilOps++
+			}
 			if got[gi][oi] == "panic" || got[gi][oi] == "redefine-panic" || got[gi][oi] == "rf:panic" {
 				v.Failf("goroutine %d op %d (%s) panicked", gi, oi, x.Ops[gi][oi])
 				return v
@@ -632,6 +680,9 @@ func evalC12(c *engine.Case) engine.Verdict {
 	}
 	if well {
 		v.Class("well-behaved")
+	}
+	if nilOps >= 2 {
+		v.Class("shared-converter-returning-a-nil-result-pointer")
 	}
 	if shared {
 		v.Class("shared-converter-executed")
@@ -679,7 +730,7 @@ func genC12(g engine.G) *engine.Case {
 	for i := 0; i < ng; i++ {
 		var ops []string
 		for k, n := 0, g.Int(1, 5); k < n; k++ {
-			ops = append(ops, engine.Pick(g, []string{"call", "call", "call", "convert", "redefcall", "sharedrf"}))
+			ops = append(ops, engine.Pick(g, []string{"call", "call", "call", "call", "convert", "redefcall", "sharedrf", "nilptr"}))
 		}
 		x.Ops = append(x.Ops, ops)
 	}
